@@ -18,11 +18,27 @@ SAN_ENV["RUST_BACKTRACE"] = "0"
 KNOWN_KEY_STRS = "cpp-strs-layout"
 
 
+_BUILT = {}
+_PRIVATE = {}
+
+
+def private_build_dir(repo=None):
+    if repo not in _PRIVATE:
+        import common
+        _PRIVATE[repo] = common.private_work_dir(build_dir(repo), "cpp-build")
+    return _PRIVATE[repo]
+
+
 def build(repo=None):
     """tool -> headers, cargo -> staticlib, g++ -> driver (c++17 and c++20). Returns {std: binary}."""
+    key = ("cpp", repo)
+    if key in _BUILT:
+        return _BUILT[key]
     tool = tool_build(repo)
     sd = sim_dir(repo)
-    bd = build_dir(repo)
+    # generated headers and driver binaries live in a directory of this process: two checks that build them at the
+    # same time (C03 and C12 both use the C++ driver) must not overwrite each other's files while they are in use
+    bd = private_build_dir(repo)
     gen = os.path.join(bd, "gen", "vbridge-cpp")
     shutil.rmtree(gen, ignore_errors=True)
     os.makedirs(gen)
@@ -49,14 +65,18 @@ def build(repo=None):
     with ThreadPoolExecutor(max_workers=2) as ex:
         exes = dict(ex.map(compile_one, ["17", "20"]))
     log("[build] C++ driver (c++17, c++20, ASan+UBSan) %.1fs" % (time.time() - t0))
+    _BUILT[key] = exes
     return exes
 
 
 def build_c(repo=None):
     """`diplomat-tool c` headers for vbridge + gcc (C11, ASan+UBSan) -> sim/c/write_c.c"""
+    key = ("c", repo)
+    if key in _BUILT:
+        return _BUILT[key]
     tool = tool_build(repo)
     sd = sim_dir(repo)
-    bd = build_dir(repo)
+    bd = private_build_dir(repo)
     gen = os.path.join(bd, "gen", "vbridge-c")
     shutil.rmtree(gen, ignore_errors=True)
     os.makedirs(gen)
@@ -72,6 +92,7 @@ def build_c(repo=None):
     r = subprocess.run(cmd, stdout=subprocess.PIPE, stderr=subprocess.STDOUT, text=True)
     if r.returncode != 0:
         raise HarnessError("gcc failed on write_c.c / the generated C headers:\n%s" % r.stdout[-6000:])
+    _BUILT[key] = exe
     return exe
 
 
